@@ -3,7 +3,7 @@
 MC   : ShramAllocMC.tla - the TLA+ transcription of architecture_allocator's bank arithmetic (ShramAlloc.tla)
        satisfies the requirement Shram.tla (BlockOK, Ordered, LutReserved, IfmFits, Ifm2Fits, AccFits) on a grid of
        operations x blocks x 6 accelerators; every candidate of find_block_config's and of the public query's
-       search loops is a legal block.  Control: the same grid with one bank of slack demanded must fail.
+       search loops is a legal block.  Control: the same grid with one bank of slack demanded must fail (Slack).
 S2C  : the operation lattice of the MC configuration (the .cfg file is read by TLC and by this driver) plus random
        large operations are built as public-API operations (NpuConv2DOperation ...) and pushed through the REAL
        api.npu_find_block_configs, architecture_allocator.find_block_config / try_block_config of the working tree;
@@ -133,7 +133,6 @@ def _fill_sub(c, rng):
             c["scaled"] = 2
     elif k == "rsum":
         c["sub"] = "REDUCE_SUM"
-        c["ofm"] = [c["ofm"][0], c["ofm"][1], c["ofm"][2]]
         if c["scaled"] == 0:
             c["scaled"] = 2
     elif k == "ew":
@@ -615,7 +614,7 @@ def main(tier, only=None):
         consts, points = mc(run, tier)
     lap("model_checking")
     # ---- S2C: lattice points + random operations through the real code
-    n_grid, n_rand, max_blocks, n_corpus = (len(points), 3000, 8, 32) if tier == "quick" else (len(points), 40000, 16, 160)
+    n_grid, n_rand, max_blocks, n_corpus = (len(points), 2000, 6, 32) if tier == "quick" else (len(points), 25000, 12, 160)
     rng.shuffle(points)
     # every (accelerator, kind) class of the lattice is present even in the quick sample
     cases = [case_from_point(p, rng, consts) for p in points[:n_grid]]
@@ -713,4 +712,5 @@ def replay(path):
 
 
 def selftest():
+    """the negative controls (8 corrupted records, the Slack configuration) are part of every run"""
     return main("quick")
